@@ -147,8 +147,19 @@ def cflags(flavor):
     return FLAVORS[flavor][1:] + ["-I" + REPO, "-I" + os.path.join(d, "inc"), "-I" + os.path.join(REPO, "src")]
 
 
+# library build variants selected by tag (so that build_harness(tag=...) can (re)build them)
+LIB_VARIANTS = {
+    "": [],
+    # every allocation of the library goes through vf_* functions supplied by the harness
+    # (heap accounting for C01/C02, fault injection for C16)
+    "-vfmem": ["-Dmalloc=vf_malloc", "-Dfree=vf_free", "-Drealloc=vf_realloc", "-Dstrdup=vf_strdup"],
+}
+
+
 def build_lib(flavor="asan", extra_defs=(), tag=""):
     """Compile REPO/src/*.c (working tree) into a static archive; returns its directory."""
+    if not extra_defs and tag in LIB_VARIANTS:
+        extra_defs = LIB_VARIANTS[tag]
     d = cdir(flavor + tag)
     lib = os.path.join(d, "libwbxml.a")
     with Lock("c-" + flavor + tag):
